@@ -1060,6 +1060,37 @@ func scenarioSlow(e *env) {
 	}
 }
 
+// edge: every answer arrives right around the caller's deadline, so that "the answer is being
+// delivered" and "the caller gives up" overlap again and again. Calls may succeed or time out;
+// whichever call succeeds must carry the answer produced for its own query, and a late answer of
+// one call must never surface in another.
+func scenarioEdge(e *env) {
+	timeout := time.Duration(e.rng.Range(20, 40)) * time.Millisecond
+	pol := policy{delay: 1, minDelay: timeout - 2*time.Millisecond, maxDelay: 4 * time.Millisecond}
+	g, per := 16, e.rng.Range(100, 200)
+	workers := e.rng.Range(1, 2)
+	e.genPct = 0
+	e.wit["goroutines"], e.wit["workers_per_connection"], e.wit["calls_per_goroutine"], e.wit["policy"], e.wit["timeout_ms"] = g, workers, per, fmt.Sprintf("%+v", pol), timeout.Milliseconds()
+	if !e.setup(pol, workers, timeout) {
+		return
+	}
+	e.runCallers(g, per, "answers-at-the-deadline", 0)
+	e.w.Seen("shapes", fmt.Sprintf("edge/g=%d/w=%d", g, workers))
+	e.judge(map[string]bool{})
+	e.mu.Lock()
+	okN, toN := 0, 0
+	for _, c := range e.calls {
+		if c.done.Load() && c.ok {
+			okN++
+		} else if c.done.Load() {
+			toN++
+		}
+	}
+	e.mu.Unlock()
+	e.w.Count("edge_calls_answered_in_time", int64(okN))
+	e.w.Count("edge_calls_timed_out", int64(toN))
+}
+
 // deadline: a share of the queries is never answered; those calls must come
 // back with an error by timeout + slack, the others with their own answer.
 func scenarioDeadline(e *env) {
@@ -1244,6 +1275,12 @@ func scenarioReconnect(e *env) {
 		refuse = refuseModes[(e.sc.Idx/2+e.sc.Idx%2)%4] // the first scenarios walk through every variant x refusal pairing once
 	}
 	refuseFor := time.Duration(e.rng.Range(300, 2500)) * time.Millisecond
+	if e.sc.Idx%8 == 4 {
+		// a long outage: the server stays away for longer than any one dial attempt may take, the
+		// client has to keep retrying and come back once the server does
+		refuse = []string{"stop-listening", "turn-away"}[(e.sc.Idx/8)%2]
+		refuseFor = time.Duration(e.rng.Range(6500, 9000)) * time.Millisecond
+	}
 	abrupt := e.rng.Bool()
 	onlyOne := workers > 1 && e.rng.Chance(1, 3)
 	rounds := 1
@@ -1536,6 +1573,8 @@ func runScenario(w *mon.Worker) {
 		scenarioAuthNonce(e)
 	case "slow":
 		scenarioSlow(e)
+	case "edge":
+		scenarioEdge(e)
 	default:
 		w.HarnessError("unknown scenario " + sc.Kind)
 	}
@@ -1648,7 +1687,8 @@ func main() {
 	}
 	// reconnect scenarios first: they are the long ones (tongo's 3 s ping / 1 s retry timers)
 	add("slow", R.N(1, 6))
-	add("reconnect", R.N(4, 40))
+	add("edge", R.N(2, 30))
+	add("reconnect", R.N(5, 40))
 	add("directed", R.N(1, 2))
 	add("growth", R.N(1, 10))
 	add("deadline", R.N(3, 50))
